@@ -25,6 +25,7 @@ mod hasher;
 mod caches;
 mod extrange;
 mod overflow;
+mod stageglue;
 mod stress;
 mod triepos;
 mod locksdemo;
@@ -82,6 +83,7 @@ fn main() {
         "extrange" => extrange::run(seed, cases, &mut sink),
         "openpath" => openpath::run(seed, cases, &mut sink),
         "iopool" => iopool::run(seed, cases, &mut sink),
+        "stageglue" => stageglue::run(seed, cases, &mut sink),
         "openpath-findings" => openpath::run_findings(seed, &mut sink),
         "bttree" => bttree::run(seed, cases, &mut sink),
         "overlay-index" => ovl::run(seed, cases, &mut sink),
